@@ -166,6 +166,11 @@ pub fn judge_live(c: &crate::props::planted::PCase) -> Verdict {
             bad!("context-missing", "thread {tid} (stack excluded or not) has no context");
         }
         let is_crash = o.crash.as_ref().map(|c| c.tid == *tid).unwrap_or(false);
+        if is_crash && o.crash_sp_unmapped {
+            // the supplied stack pointer lies in no mapping: there is no stack to keep or drop (C06's
+            // subject); only the soft error below is judged for this thread
+            continue;
+        }
         let sp = o.sps[i];
         let st = o.stacks[i];
         // the thread's instruction pointer
@@ -226,7 +231,17 @@ pub fn judge_live(c: &crate::props::planted::PCase) -> Verdict {
     if let Some(cr) = &o.crash {
         let i = o.tids.iter().position(|t| *t == cr.tid).unwrap();
         let t = threads.iter().find(|t| t.tid as i32 == cr.tid).unwrap();
-        let references = t.stack.size != 0; // judged above to be exactly the reference predicate
+        // judged above to be exactly the reference predicate; a crash context whose stack cannot be
+        // located references the mapping only through its instruction pointer
+        let references = if o.crash_sp_unmapped {
+            let rip = cr.gregs[crate::vcore::regs::REG_RIP] as u64;
+            o.principal.map(|(s, e)| rip >= s && rip < e).unwrap_or(false)
+        } else {
+            t.stack.size != 0
+        };
+        if o.crash_sp_unmapped {
+            classes.push("crash-stack-pointer-unmapped".to_string());
+        }
         let _ = i;
         if o.principal.is_none() {
             if !reported {
@@ -259,7 +274,7 @@ pub fn run(ctx: &mut LaneCtx) {
         SubSpec {
             name: "live-filter",
             cases: (960, 20_000),
-            rule: "1..43 threads on custom stacks of 1..8 pages - three threads in a hundred on a deep stack of 1..2 MiB whose only reference may lie more than a megabyte above the stack pointer - (with or without a size limit that shortens the stacks of threads at position >= 20 to the 2 KiB chunk holding sp) with planted words (pointer into the principal mapping / another mapping / one past its end / own stack / small ints, at aligned slots above sp, below sp, or unaligned), spinners running inside an executable mapping, principal address inside a mapping or in a hole (in some cases the mapping is unmapped by the target between two requests of the same writer and the second request is judged), crash context on a chosen thread with rip inside/outside; oracle = stack present iff rip inside or aligned word at/above sp points into the mapping, records+contexts always present, soft error as stated; non-trivial = at least one included and one excluded stack in the same dump; distinct = hash of case",
+            rule: "1..43 threads on custom stacks of 1..8 pages - three threads in a hundred on a deep stack of 1..2 MiB whose only reference may lie more than a megabyte above the stack pointer - (with or without a size limit that shortens the stacks of threads at position >= 20 to the 2 KiB chunk holding sp) with planted words (pointer into the principal mapping / another mapping / one past its end / own stack / small ints, at aligned slots above sp, below sp, or unaligned), spinners running inside an executable mapping, principal address inside a mapping or in a hole (in some cases the mapping is unmapped by the target between two requests of the same writer and the second request is judged), crash context on a chosen thread with rip inside/outside (one in seven with a stack pointer in no mapping: it can then reference the mapping only through rip); oracle = stack present iff rip inside or aligned word at/above sp points into the mapping, records+contexts always present, soft error as stated; non-trivial = at least one included and one excluded stack in the same dump; distinct = hash of case",
             strategy: crate::props::planted::case_strategy(None, Some(true), None)
                 .prop_map(|mut c| {
                     if c.principal.is_none() {
